@@ -6,6 +6,13 @@
 //        after each op: owner|-1 result|-1 n queue...  separated by ';'
 //   sseq <capacity> <actor> <op> ...   ops on one fresh SemaphoreImpl: 0 acquire_async 1 release 2 wait
 //        after each op: value n queue... k granted...
+//   bseq <expected> <actor> <op> ...   ops on one fresh BarrierImpl: 0 acquire_async 1 wait (on a granted acquisition)
+//        after each op: n queue... k granted...
+//   cseq <actor> <op> <arg> ...   ops on fresh mailboxes 0..2, kernel in MC mode (MC_record_path set):
+//        0 isend(mailbox) 1 irecv(mailbox) 2 test(rank of the actor's request) 3 wait-enabled?(rank) 4/5 iprobe SEND/RECV kind
+//        after each op: ret ty comm mbox snd rcv n (is_send actor comm)... ';'  where ty/comm/mbox/snd/rcv are read from the
+//        Transition rebuilt by deserialize_transition() from the observer's serialize(); then '|' and, for every op whose
+//        predecessor belongs to another actor, prev->dispatch_depends(cur)
 #include <csignal>
 #include <fcntl.h>
 #include <iostream>
@@ -17,7 +24,14 @@
 #include <sys/wait.h>
 #include <unistd.h>
 #include <vector>
+#include "src/kernel/activity/BarrierImpl.hpp"
+#include "src/kernel/activity/CommImpl.hpp"
+#include "src/kernel/activity/MailboxImpl.hpp"
 #include "src/kernel/activity/MutexImpl.hpp"
+#include "src/kernel/actor/CommObserver.hpp"
+#include "src/kernel/actor/WaitTestObserver.hpp"
+#include "src/mc/mc_replay.hpp"
+#include "src/mc/transition/TransitionComm.hpp"
 #include "src/kernel/activity/SemaphoreImpl.hpp"
 #include "src/kernel/actor/ActorImpl.hpp"
 #include "src/mc/remote/Channel.hpp"
@@ -167,6 +181,165 @@ static void do_sseq(std::vector<std::string> const& tk)
   printf("\n");
 }
 
+static void do_bseq(std::vector<std::string> const& tk)
+{
+  static std::vector<s4u::BarrierPtr> keep;
+  auto bar = s4u::Barrier::create(std::stoul(tk.at(1)));
+  keep.push_back(bar);
+  auto* b = bar->pimpl_;
+  static std::vector<std::map<long, act::BarrierAcquisitionImplPtr>> keep_acq;
+  keep_acq.emplace_back();
+  auto& acq = keep_acq.back();
+  for (size_t i = 2; i + 1 < tk.size(); i += 2) {
+    long a    = std::stol(tk[i]);
+    int op    = std::stoi(tk[i + 1]);
+    auto* who = actors.at(a);
+    if (op == 0)
+      acq[a] = b->acquire_async(who);
+    else { // wait on a granted acquisition: it is consumed
+      xbt_assert(acq.at(a)->granted_);
+      acq.erase(a);
+    }
+    printf("%zu", b->ongoing_acquisitions_.size());
+    for (auto const& q : b->ongoing_acquisitions_)
+      printf(" %ld", actors_index(q->get_issuer()));
+    std::vector<long> granted;
+    for (auto const& [who_id, ac] : acq)
+      if (ac->granted_)
+        granted.push_back(who_id);
+    printf(" %zu", granted.size());
+    for (long g : granted)
+      printf(" %ld", g);
+    printf(" ; ");
+  }
+  printf("\n");
+}
+
+template <class Obs> static mc::Transition* through_the_wire(kernel::actor::ActorImpl* who, Obs const& obs)
+{
+  int sv[2];
+  xbt_assert(socketpair(AF_UNIX, SOCK_STREAM, 0, sv) == 0);
+  mc::Transition* t;
+  {
+    mc::Channel out(sv[0]);
+    obs.serialize(out);
+    xbt_assert(out.send() == 0);
+    shutdown(sv[0], SHUT_WR);
+    mc::Channel in(sv[1]);
+    t = mc::deserialize_transition(mc::Aid{(unsigned)who->get_pid()}, 0, in);
+  } // the channels close their sockets
+  return t;
+}
+
+static void do_cseq(std::vector<std::string> const& tk)
+{
+  static int round = 0;
+  static std::vector<act::CommImplPtr> keep; // never destroyed
+  round++;
+  MC_record_path() = "1"; // MC_record_replay_is_active(): the kernel takes its model-checking branches
+  std::vector<act::MailboxImpl*> mb;
+  for (int k = 0; k < 3; k++)
+    mb.push_back(s4u::Mailbox::by_name("c" + std::to_string(round) + "_" + std::to_string(k))->get_impl());
+  auto mb_index = [&mb](unsigned id) {
+    for (size_t k = 0; k < mb.size(); k++)
+      if (mb[k]->get_id() == id)
+        return (long)k;
+    return -1L;
+  };
+  auto pid_index = [](long pid) {
+    for (size_t i = 0; i < actors.size(); i++)
+      if (actors[i]->get_pid() == pid)
+        return (long)i;
+    return -1L;
+  };
+  std::map<long, std::vector<act::CommImplPtr>> mine;
+  static int dummy_payload = 7;
+  std::vector<int> deps;
+  mc::Transition* prev = nullptr;
+  long prev_actor      = -1;
+  for (size_t i = 1; i + 2 < tk.size(); i += 3) {
+    long a    = std::stol(tk[i]);
+    int op    = std::stoi(tk[i + 1]);
+    long arg  = std::stol(tk[i + 2]);
+    auto* who = actors.at(a);
+    long ret  = -1;
+    mc::Transition* t = nullptr;
+    long shown_mb     = -1;
+    if (op == 0) {
+      kernel::actor::CommIsendSimcall obs{who,     mb.at(arg), 1.0,     -1.0,  (unsigned char*)&dummy_payload, sizeof(int),
+                                          nullptr, nullptr,    nullptr, nullptr, false,                         "x"};
+      auto c = boost::static_pointer_cast<act::CommImpl>(act::CommImpl::isend(&obs));
+      mine[a].push_back(c);
+      keep.push_back(c);
+      t        = through_the_wire(who, obs);
+      shown_mb = arg;
+    } else if (op == 1) {
+      kernel::actor::CommIrecvSimcall obs{who, mb.at(arg), nullptr, nullptr, nullptr, nullptr, nullptr, -1.0, "x"};
+      auto c = boost::static_pointer_cast<act::CommImpl>(act::CommImpl::irecv(&obs));
+      mine[a].push_back(c);
+      keep.push_back(c);
+      t        = through_the_wire(who, obs);
+      shown_mb = arg;
+    } else if (op == 2) {
+      auto c = mine.at(a).at(arg);
+      ret    = c->test(who) ? 1 : 0;
+      kernel::actor::ActivityTestSimcall obs{who, c.get(), "x"};
+      t        = through_the_wire(who, obs);
+      shown_mb = mb_index(static_cast<mc::CommTestTransition*>(t)->get_mailbox());
+    } else if (op == 3) {
+      auto c = mine.at(a).at(arg);
+      kernel::actor::ActivityWaitSimcall obs{who, c.get(), -1.0, "x"};
+      xbt_assert(obs.is_enabled(), "the model says this wait is enabled");
+      t        = through_the_wire(who, obs);
+      shown_mb = mb_index(static_cast<mc::CommWaitTransition*>(t)->get_mailbox());
+    } else {
+      auto kind = op == 4 ? s4u::Mailbox::IprobeKind::SEND : s4u::Mailbox::IprobeKind::RECV;
+      ret       = mb.at(arg)->iprobe(kind, nullptr, nullptr) != nullptr ? 1 : 0;
+      // IprobeSimcall's constructor reads an smpi::Request: the transition is built directly
+      t        = new mc::CommIprobeTransition(mc::Aid{(unsigned)who->get_pid()}, 0, op == 4, mb.at(arg)->get_id(), 0);
+      shown_mb = arg;
+    }
+    long comm = 0, snd = -1, rcv = -1;
+    switch (t->type_) {
+      case mc::Transition::Type::COMM_ASYNC_SEND:
+        comm = static_cast<mc::CommSendTransition*>(t)->get_comm();
+        break;
+      case mc::Transition::Type::COMM_ASYNC_RECV:
+        comm = static_cast<mc::CommRecvTransition*>(t)->get_comm();
+        break;
+      case mc::Transition::Type::COMM_TEST:
+        comm = static_cast<mc::CommTestTransition*>(t)->get_comm();
+        snd  = static_cast<mc::CommTestTransition*>(t)->get_sender().c_val();
+        rcv  = static_cast<mc::CommTestTransition*>(t)->get_receiver().c_val();
+        break;
+      case mc::Transition::Type::COMM_WAIT:
+        comm = static_cast<mc::CommWaitTransition*>(t)->get_comm();
+        snd  = static_cast<mc::CommWaitTransition*>(t)->get_sender().c_val();
+        rcv  = static_cast<mc::CommWaitTransition*>(t)->get_receiver().c_val();
+        break;
+      default:
+        break;
+    }
+    auto* box = mb.at(shown_mb);
+    printf("%ld %d %ld %ld %ld %ld %zu", ret, (int)t->type_, comm, shown_mb, snd < 0 ? -1L : pid_index(snd),
+           rcv < 0 ? -1L : pid_index(rcv), box->comm_queue_.size());
+    for (auto const& q : box->comm_queue_) {
+      bool is_send = q->get_type() == act::CommImplType::SEND;
+      printf(" %d %ld %u", (int)is_send, actors_index(is_send ? q->src_actor_.get() : q->dst_actor_.get()), q->get_id());
+    }
+    printf(" ; ");
+    if (prev != nullptr && prev_actor != a)
+      deps.push_back(prev->dispatch_depends(t) ? 1 : 0);
+    prev       = t;
+    prev_actor = a;
+  }
+  printf("|");
+  for (int d : deps)
+    printf(" %d", d);
+  printf("\n");
+  MC_record_path().clear();
+}
+
 int main(int argc, char** argv)
 {
   s4u::Engine e(&argc, argv);
@@ -190,6 +363,10 @@ int main(int argc, char** argv)
       do_mseq(tk);
     else if (tk[0] == "sseq")
       do_sseq(tk);
+    else if (tk[0] == "bseq")
+      do_bseq(tk);
+    else if (tk[0] == "cseq")
+      do_cseq(tk);
     else
       printf("?\n");
     fflush(stdout);
